@@ -1,0 +1,29 @@
+//go:build verif
+
+package parser
+
+import "strings"
+
+// Read-only wrapper used by the C07 verification harness (/verif/harness/c07): serialisation of a
+// parsed rule / declaration (serializeTo is unexported on Compound values).
+// Nothing here changes the behaviour of the package; the file is only compiled with -tags verif.
+
+// VerifC07SerializeCompound serialises any value returned by the rule / declaration parsers.
+func VerifC07SerializeCompound(c Compound) string {
+	var w strings.Builder
+	switch c := c.(type) {
+	case QualifiedRule:
+		c.serializeTo(&w)
+	case AtRule:
+		c.serializeTo(&w)
+	case Declaration:
+		c.serializeTo(&w)
+	case ParseError:
+		c.serializeTo(&w)
+	case Whitespace:
+		c.serializeTo(&w)
+	case Comment:
+		c.serializeTo(&w)
+	}
+	return w.String()
+}
